@@ -111,6 +111,7 @@ type recCache struct {
 	rejectTrim   bool // Remove(seq, b>0, MaxInt32) is not supported either
 	onLoad       func(seq int)
 	lastFwdErr   error
+	lastFullRows int // rows of the batch that was last refused with ErrKvCacheFull
 }
 
 func (c *recCache) seq(i int) *refSeq {
@@ -163,13 +164,14 @@ func (c *recCache) StartForward(ctx ml.Context, batch input.Batch, reserve bool)
 	if err != nil {
 		if errors.Is(err, kvcache.ErrKvCacheFull) {
 			verifsim.Probe("cache_full_error")
+			c.lastFullRows = len(batch.Positions)
 		}
 		return err
 	}
 	if reserve {
 		return nil
 	}
-	toks := batch.Inputs.Floats()
+	toks := effTokens(batch)
 	for i, p := range batch.Positions {
 		r := c.seq(batch.Sequences[i])
 		r.ents = append(r.ents, refEntry{pos: p, tok: int32(toks[i])})
@@ -537,6 +539,60 @@ func (v *vocab) next(h uint64, last int32) int32 {
 	return v.table[(h>>8)%uint64(len(v.table))]
 }
 
+// ---- multimodal inputs -------------------------------------------------------------
+
+// imgPayload is what EncodeMultimodal returns for an image: code is what the model "sees"
+// for the input (stored as the token of its K/V rows, always negative), same the number of
+// following inputs that must be in the same batch (a real vision model copies the image's
+// embedding rows over the placeholder tokens that follow, in one graph).
+type imgPayload struct {
+	code int32
+	same int
+}
+
+// imgPadToken is the placeholder PostTokenize puts behind an image, once per row it occupies.
+const imgPadToken = 1
+
+// visionModel is the scripted model of a vision run: the same model, plus model.MultimodalProcessor.
+type visionModel struct{ *scriptModel }
+
+func (m *visionModel) EncodeMultimodal(ctx ml.Context, data []byte) (any, error) {
+	verifsim.Yield("sim:encode-image")
+	if len(data) != 3 {
+		return nil, fmt.Errorf("script model: image of %d bytes", len(data))
+	}
+	return imgPayload{code: -(1 + int32(data[1])*256 + int32(data[2])), same: int(data[0]) % 4}, nil
+}
+
+func (m *visionModel) PostTokenize(in []input.Input) ([]input.Input, error) {
+	var out []input.Input
+	for _, inp := range in {
+		p, ok := inp.Multimodal.(imgPayload)
+		if !ok {
+			out = append(out, inp)
+			continue
+		}
+		inp.SameBatch = p.same
+		out = append(out, inp)
+		for k := 0; k < p.same; k++ {
+			out = append(out, input.Input{Token: imgPadToken})
+		}
+	}
+	return out, nil
+}
+
+// effTokens is what the model is given row by row: the token, or the code of the image
+// attached to the row.
+func effTokens(batch input.Batch) []float32 {
+	toks := append([]float32(nil), batch.Inputs.Floats()...)
+	for _, mi := range batch.Multimodal {
+		if p, ok := mi.Multimodal.(imgPayload); ok && mi.Index >= 0 && mi.Index < len(toks) {
+			toks[mi.Index] = float32(p.code)
+		}
+	}
+	return toks
+}
+
 // ---- scripted model ----------------------------------------------------------------
 
 type visEnt struct {
@@ -619,11 +675,12 @@ func (m *scriptModel) Forward(ctx ml.Context, batch input.Batch) (ml.Tensor, err
 	verifsim.Yield("sim:forward")
 	srv := m.srv
 	n := len(batch.Positions)
-	toks := batch.Inputs.Floats()
+	toks := effTokens(batch)
 	if len(toks) != n || len(batch.Sequences) != n {
 		return nil, fmt.Errorf("script model: %d inputs, %d positions, %d sequences", len(toks), n, len(batch.Sequences))
 	}
 	srv.beginForward(batch, toks)
+	srv.checkSameBatch(batch)
 
 	cache := m.Config().Cache
 	uid0 := m.uid
